@@ -1387,20 +1387,23 @@ theorem call_is_substitution_var (n : Nat) (c : Ctx) (lg : List Expr) (hw : WF c
   rw [prepare_direct c f body far ar _ hfr hf har hst (hasHole_lits vals) (by simpa using hfar)]
   exact apply_is_substitution n c lg hw body vals hlen hb hsl
 
-/-- … and through `@` -/
+/-- … and through `@`, `_partial`: for members that are not symbols (`hns`). A member that is a symbol is
+    evaluated once more on its way into the frame (`ofMember`): see `symbol_member_counterexample`. -/
 theorem call_is_substitution_at (n : Nat) (c : Ctx) (lg : List Expr) (hw : WF c) (f : String) (body : Expr)
     (far : Nat) (vals : List Val) (hlen : vals.length ≤ 3) (hfar : far ≤ vals.length)
     (hf : c.get f = some (.fn body far))
     (hb : Body c (["x", "y", "z"].take vals.length) body) (hst : Stable c body)
-    (hsl : splitLocals body = none) :
+    (hsl : splitLocals body = none)
+    (hns : ∀ v ∈ vals, ofMember v = .lit v) :
     eval (n + 3) (.op2 "@" (.sym f) (.lit (.list vals))) ⟨c, lg⟩ =
       eval (n + 1) (subst (sigma vals) body) ⟨c, lg⟩ := by
   have e1 : eval (n + 2) (.sym f) ⟨c, lg⟩ = (.ok (.fn body far), ⟨c, lg⟩) := by
     show step (eval (n + 1)) _ _ = _
     simp [step, bind_run, getCtx, hf, pure_run]
+  have hm : vals.map ofMember = vals.map .lit := List.map_congr_left hns
   show step (eval (n + 2)) _ _ = _
   simp only [step, bind_run, eval_lit_ok, e1]
-  simp only [beq_self_eq_true, if_true, isKGFn, Bool.true_or]
+  simp only [beq_self_eq_true, if_true, isKGFn, Bool.true_or, hm]
   exact call_is_substitution n c lg hw body far 1 vals hlen hfar (by omega) hb hst hsl
 
 /-! ## non-vacuity: a concrete interpreter state on which the hypotheses hold -/
@@ -1495,6 +1498,15 @@ example : (eval 50 (.call (.sym "loc") ([Val.int 5].map .lit) 1) exSt).2.ctx.sco
     rw [this] at h
     cases h
     exact ⟨[.int 5], rfl⟩)).1
+
+/-- PROPERTY (witness, known finding `subst:symbol-member-defined`).  With `a::10` in the caller, the
+    identity function applied to the symbol `:a` as a list member — through Each and through `@` —
+    returns 10, not `:a`; an undefined symbol comes back as itself. -/
+theorem symbol_member_counterexample :
+    obsInts (eval 20 (.each (.fn (.sym "x") 1) (.lit (.list [.sym [97]]))) exSt).1 = some [10] ∧
+    obsInt (eval 20 (.op2 "@" (.fn (.sym "x") 1) (.lit (.list [.sym [97]]))) exSt).1 = 10 ∧
+    obsInts (eval 20 (.each (.fn (.sym "x") 1) (.lit (.list [.sym [113]]))) exSt).1 = none := by
+  decide
 
 -- merge_is_positional: the layer `(;2)` on the vector [_, _, 3] puts 2 at position 1 and nothing else
 example : fillLayer [.hole, .hole, .lit (.int 3)] (relLayerFrom 0 [.hole, .hole, .lit (.int 3)] [(1, .lit (.int 2))])
